@@ -73,8 +73,9 @@ func count(s *Store, ctx context.Context, builders ...func(query *bun.SelectQuer
 		Count(ctx)
 }
 
-func filterAccountAddress(address, key string) string {
+func filterAccountAddress(address, key string) (string, []any) {
 	parts := make([]string, 0)
+	args := make([]any, 0)
 	src := strings.Split(address, ":")
 
 	needSegmentCheck := false
@@ -92,16 +93,24 @@ func filterAccountAddress(address, key string) string {
 			if len(segment) == 0 {
 				continue
 			}
-			parts = append(parts, fmt.Sprintf("%s_array @@ ('$[%d] == \"%s\"')::jsonpath", key, i, segment))
+			// the client's text is never formatted into the statement: it is passed as a bound value,
+			// quoted as a jsonpath string
+			quotedSegment, err := json.Marshal(segment)
+			if err != nil {
+				panic(err)
+			}
+			parts = append(parts, fmt.Sprintf("%s_array @@ (?)::jsonpath", key))
+			args = append(args, fmt.Sprintf("$[%d] == %s", i, string(quotedSegment)))
 		}
 	} else {
-		parts = append(parts, fmt.Sprintf("%s = '%s'", key, address))
+		parts = append(parts, fmt.Sprintf("%s = ?", key))
+		args = append(args, address)
 	}
 
-	return strings.Join(parts, " and ")
+	return strings.Join(parts, " and "), args
 }
 
-func filterAccountAddressOnTransactions(address string, source, destination bool) string {
+func filterAccountAddressOnTransactions(address string, source, destination bool) (string, []any) {
 	src := strings.Split(address, ":")
 
 	needSegmentCheck := false
@@ -112,11 +121,15 @@ func filterAccountAddressOnTransactions(address string, source, destination bool
 		}
 	}
 
+	var (
+		data []byte
+		err  error
+	)
+	sourcesColumn, destinationsColumn := "sources", "destinations"
 	if needSegmentCheck {
 		m := map[string]any{
 			fmt.Sprint(len(src)): nil,
 		}
-		parts := make([]string, 0)
 
 		for i, segment := range src {
 			if len(segment) == 0 {
@@ -125,33 +138,26 @@ func filterAccountAddressOnTransactions(address string, source, destination bool
 			m[fmt.Sprint(i)] = segment
 		}
 
-		data, err := json.Marshal([]any{m})
-		if err != nil {
-			panic(err)
-		}
-
-		if source {
-			parts = append(parts, fmt.Sprintf("sources_arrays @> '%s'", string(data)))
-		}
-		if destination {
-			parts = append(parts, fmt.Sprintf("destinations_arrays @> '%s'", string(data)))
-		}
-		return strings.Join(parts, " or ")
+		data, err = json.Marshal([]any{m})
+		sourcesColumn, destinationsColumn = "sources_arrays", "destinations_arrays"
 	} else {
-		data, err := json.Marshal([]string{address})
-		if err != nil {
-			panic(err)
-		}
-
-		parts := make([]string, 0)
-		if source {
-			parts = append(parts, fmt.Sprintf("sources @> '%s'", string(data)))
-		}
-		if destination {
-			parts = append(parts, fmt.Sprintf("destinations @> '%s'", string(data)))
-		}
-		return strings.Join(parts, " or ")
+		data, err = json.Marshal([]string{address})
 	}
+	if err != nil {
+		panic(err)
+	}
+
+	parts := make([]string, 0)
+	args := make([]any, 0)
+	if source {
+		parts = append(parts, fmt.Sprintf("%s @> ?", sourcesColumn))
+		args = append(args, string(data))
+	}
+	if destination {
+		parts = append(parts, fmt.Sprintf("%s @> ?", destinationsColumn))
+		args = append(args, string(data))
+	}
+	return strings.Join(parts, " or "), args
 }
 
 func filterPIT(pit *ledger.Time, column string) func(query *bun.SelectQuery) *bun.SelectQuery {
